@@ -86,7 +86,7 @@ fn judge_get(t: &TruthKey, a: usize, b: usize, r: &Result<Option<chunk_cache::Ca
 }
 
 /// all regular files below root/<prefix>/<key>/ that do not look like temp files
-fn walk_cache_files(root: &Path) -> Vec<(PathBuf, u64)> {
+pub fn walk_cache_files(root: &Path) -> Vec<(PathBuf, u64)> {
     let mut out = Vec::new();
     let Ok(l1) = std::fs::read_dir(root) else {
         return out;
